@@ -82,14 +82,18 @@ Section Deps.
     end.
 
   Definition update_one (s : rstate) (reg : string) (c : change) : rstate :=
-    match c, rs_get s reg with
-    | None, _ => rs_set s reg None
-    | _, Some None => rs_set s reg None
-    | Some (cname, cval), cur =>
-      let '(nm0, v0) := match cur with Some (Some (n, v)) => (n, v) | _ => (reg, 0%Z) end in
-      if String.eqb cname reg then rs_set s reg (Some (nm0, (v0 + cval)%Z))
+    match c with
+    | None => rs_set s reg None
+    | Some (cname, cval) =>
+      if String.eqb cname reg then
+        (* increment / decrement of the register itself: unknown stays unknown *)
+        match rs_get s reg with
+        | Some None => rs_set s reg None
+        | Some (Some (nm0, v0)) => rs_set s reg (Some (nm0, (v0 + cval)%Z))
+        | None => rs_set s reg (Some (reg, (0 + cval)%Z))
+        end
       else
-        (* renaming: take over origin and accumulated value of the source register *)
+        (* copy: origin and accumulated value of the source register, whatever reg held before *)
         match rs_get s cname with
         | Some None => rs_set s reg None
         | Some (Some (snm, sv)) => rs_set s reg (Some (snm, (sv + cval)%Z))
